@@ -419,7 +419,7 @@ SONG_MODEL_CORPUS = [
     ("c08song T0:2.40.6.2 #author=%s #programer=%s" % (hx("au"), hx("pr")), ("tags", "tag-fallback")),
     ("c08song T0:2.40.6.2 #author=%s" % hx("only author"), ("tags", "tag-fallback")),
     ("c08song T0:2.40.6.2 #title=%s #comment=%s" % ("61" * 300, "e38182" * 257), ("tags", "tag-units>256")),
-    # a tag that is not valid UTF-8 is an InputError of vgm_export (repository fix 2b805cd)
+    # a tag that is not valid UTF-8 is an InputError of vgm_export (repository fix fab3739)
     ("c08song T0:2.40.6.2 #title=ff", ("tags", "tag-invalid-utf8")),
     ("c08song T0:2.40.6.2 #comment=41c328", ("tags", "tag-invalid-utf8")),
     ("c08song T0:2.40.6.2 #vgmdate=f4908080", ("tags", "tag-invalid-utf8")),
